@@ -51,7 +51,7 @@ def emulsion_ops(draw, dim, cls0, n):
         name = draw(
             st.sampled_from(
                 ["append", "append", "append", "append_nocopy", "extend", "construct", "copy", "copy_min", "slice", "add", "remove_small",
-                 "remove_overlapping", "linked_write", "merge", "clear", "reject_dim", "reject_layout", "accept_inconsistent",
+                 "remove_overlapping", "linked_write", "merge", "clear", "reject_dim", "reject_layout", "reject_extend", "accept_inconsistent",
                  "mutate_owned", "mutate_owned", "mutate_derived", "mutate_source", "getitem", "queries"]
             )
         )
@@ -77,6 +77,11 @@ def emulsion_ops(draw, dim, cls0, n):
         elif name in ("reject_layout", "accept_inconsistent"):
             other = [c for c in CLASSES[dim] if c != cls0]
             op["d"] = draw(drop(dim, draw(st.sampled_from(other))))
+        elif name == "reject_extend":  # a wrong droplet in the middle of a batch: good ones, the bad one, another good one
+            other = [c for c in CLASSES[dim] if c != cls0]
+            op["d"] = draw(drop(dim, draw(st.sampled_from(other))))
+            op["ds"] = [draw(drop(dim, cls0)) for _ in range(draw(st.integers(1, 3)))]
+            op["k"] = draw(st.integers(0, 2))
         elif name in ("mutate_owned", "mutate_derived", "mutate_source", "getitem"):
             op["i"] = draw(_idx)
             op["r"] = draw(st.sampled_from([0.125, 7.0]))
@@ -397,6 +402,25 @@ class C20(Property):
                     return
                 except ValueError:
                     pass
+            elif name == "reject_extend":
+                if n == 0:
+                    continue
+                bad = mk(op["d"])
+                good = [mk(x) for x in op["ds"]]
+                if any(g.data.dtype != E.dtype for g in good) or bad.data.dtype == E.dtype:
+                    continue  # the emulsion is not of the expected class at this point of the history
+                k = min(op["k"], len(good))
+                batch = good[:k] + [bad] + good[k:]
+                try:
+                    E.extend(batch, force_consistency=True)
+                    fail("reject_extend:accepted", f"extend(force_consistency=True) accepted {bad} into an emulsion of dtype {E.dtype}")
+                    return
+                except ValueError:
+                    pass
+                # "add many droplets" = one append after the other: the droplets before the rejected one are stored (as copies),
+                # the rejected one and everything after it are not; the emulsion stays usable
+                M.extend(enc(g) for g in good[:k])
+                owned.extend(good[:k])
             elif name == "accept_inconsistent":
                 d = mk(op["d"])
                 E.append(d)
